@@ -429,3 +429,10 @@ def r7(ctx: Ctx) -> None:
         else:
             ctx.unrec(f, f.node, "per-price depth is the sum of the volumes at that price", "the way the depth dictionary is built is not modelled", short(r)[:200])
     ctx.require(n >= 1, f"{q}: no returning path")
+
+
+@rule("C08.H1", "mechanism shared with C02: the best quote is read from the top of the queue, which is the best order only while the queue is a valid heap", "T4 typestate (same rule as C02.R2)", floor=4)
+def h1(ctx: Ctx) -> None:
+    from .c02 import r2 as heap_rule
+
+    heap_rule(ctx)
